@@ -1,4 +1,3 @@
-//verif:race
 // C05 — an object just read or reported present survives old_blocks more
 // rotations; repeating the same Get/FindMissing writes nothing.
 //
@@ -10,6 +9,8 @@
 // earlier than its invocation, the observing call no later than its return).
 // Index discards are read from the daemon's own Prometheus collectors; a
 // discard drops all obligations (the property excludes that case).
+//
+//verif:race
 package main
 
 import (
@@ -34,8 +35,8 @@ func main() {
 		Level:    "exploration",
 		Rule: "case = generated configuration (old 0-3, current 1-4, new 1-4, both growth policies, flat/hierarchical, both index backends, sector sizes) x history of uploads (sized to force allocations), touches (Get / FindMissing) and probes placed with a bias to exactly old_blocks allocations after the touch; " +
 			"distinct = hash of configuration and the (touch, allocations-until-probe) sequence; non-trivial = at least one probe at the exact boundary in a discard-free stretch",
-		Workers: 12,
-		Floors:  map[string]int64{"boundary_probes": 1500, "boundary_probes_present": 1500, "repeat_calls_checked": 1500, "discard_free_histories": 100, "refreshes_observed": 500, "conc_touch_rounds": 30},
+		Workers:     12,
+		Floors:      map[string]int64{"boundary_probes": 1500, "boundary_probes_present": 1500, "repeat_calls_checked": 1500, "discard_free_histories": 100, "refreshes_observed": 500, "conc_touch_rounds": 30},
 		Assumptions: []string{"allocation count = successful BlockAllocator.NewBlock calls", "the touch is dated at the invocation of the touching call, the observation of absence at the return of the observing call"},
 		Race:        true,
 		Body:        body,
@@ -262,9 +263,77 @@ func history(ctx context.Context, w *run.Worker, c *run.Case, concTouch bool) {
 		put(size)
 	}
 
+	// A second upload of an object that is already stored, stalled after it
+	// allocated its space: it completes many rotations later, right after the
+	// object was touched (and possibly refreshed into a newer block). Its
+	// completion must not shorten what the touch promised.
+	type stallT struct {
+		i    int
+		a0   int64
+		left int
+		gate chan struct{}
+		done chan error
+	}
+	var stalled *stallT
+	startStall := func(i int) {
+		o := objs[i]
+		if len(o.data) < 2 {
+			return
+		}
+		st := &stallT{i: i, a0: allocs(), left: r.Range(4, 60), gate: make(chan struct{}), done: make(chan error, 1)}
+		arrived := make(chan struct{}, 1)
+		n := 0
+		u := &asm.Upload{Data: o.data, Chunks: []int{1}, Yield: func() {
+			n++
+			if n == 2 {
+				arrived <- struct{}{}
+				<-st.gate
+			}
+		}}
+		go func() { st.done <- s.BA.Put(ctx, o.d, u.CASBuffer(o.d)) }()
+		select {
+		case <-arrived:
+			stalled = st
+			w.Count("stalled_duplicate_uploads", 1)
+			c.Logf("stalled re-upload of #%d started at allocs=%d", i, st.a0)
+		case err := <-st.done:
+			c.Logf("re-upload of #%d ended before the gate: %v", i, err)
+			close(st.gate)
+		}
+		checkTaint()
+	}
+	finishStall := func() {
+		st := stalled
+		stalled = nil
+		if r.Chance(2, 3) {
+			get(st.i, false)
+		}
+		close(st.gate)
+		err := <-st.done
+		checkTaint()
+		if tainted {
+			objs[st.i].touch = -1
+		}
+		sig.WriteString("S;")
+		c.Logf("stalled re-upload of #%d finished after %d allocations: %v", st.i, allocs()-st.a0, err)
+	}
+	defer func() {
+		if stalled != nil {
+			close(stalled.gate)
+			<-stalled.done
+		}
+	}()
+
 	steps := r.Range(40, 140)
 	for st := 0; st < steps; st++ {
 		tainted = false
+		if stalled != nil {
+			stalled.left--
+			if stalled.left <= 0 || allocs()-stalled.a0 >= int64(cfg.Cur+cfg.New) {
+				finishStall()
+				tainted = false
+			}
+		}
 		// Boundary-seeking: if some object sits exactly at the boundary, probe it with high probability.
 		var atBoundary, touched []int
 		a := allocs()
@@ -291,6 +360,12 @@ func history(ctx context.Context, w *run.Worker, c *run.Case, concTouch bool) {
 				}
 				findMissing(idx, r.Chance(1, 2))
 			}
+		case x < 8 && stalled == nil && len(objs) > 0:
+			i := r.Intn(len(objs))
+			if r.Bool() && len(objs) > 4 {
+				i = len(objs) - 1 - r.Intn(4)
+			}
+			startStall(i)
 		case x < 70 || len(objs) == 0:
 			fillOne()
 		case x < 85:
